@@ -247,6 +247,27 @@ CHECKS = {
         'interpreter validated against g++ builds of both variants on 300 '
         'seeded sequences per run of the validation script; long sequences '
         'outside the cubes are outside the claim'),
+    'C06': (
+        True, '5/C06',
+        'symbolic execution of the closed-form checks on unbounded integers / '
+        'bit-vectors (pysym): size and exponent checks, the ROCA subgroup '
+        'test per prime, both IsWeak functions with uninterpreted residue '
+        'predicates, EC validity on toy curves, the EC check bodies over all '
+        'curve identifiers, and the candidate sequence of the vulnerable '
+        'key-pair generator with SHA-1/AES/primality havocked',
+        'Bounded symbolic model checking: CheckSizes <=> n < 2^2047 and '
+        'CheckExponents <=> e != 65537 for all integers; _HasDiscreteLog <=> '
+        'membership in <65537> for every residue modulo each of the 39 '
+        'primes; ROCA IsWeak <=> all 39 predicates on n mod p, variant <=> '
+        'all 48 QR predicates and not ROCA, for every modulus; QR tables = '
+        'Euler criterion; IsValidPublicKey <=> affine point with reduced '
+        'coordinates for every pair in [-3, 2p+3) on toy fields; '
+        'CheckValidECKey / CheckWeakCurve for every curve id in [-1, 22]; '
+        'generate_prime tests v + 31 - v mod 30 and then the increments '
+        '6,4,2,4,2,4,6,2.',
+        'denylists (hash, cipher, table look-up) outside; the real prime '
+        'fields only through toy curves and concrete boundary encodings in '
+        'the replay oracle'),
 }
 
 NOT_APPLICABLE = {
